@@ -172,6 +172,9 @@ class CallMixin:
             raise Unsupported(f'spec builtin {py.name} used as a value')
         if inspect.isclass(py):
             return self.construct(py, args, kwargs)
+        ext0 = self.reg.externals.get(py) if _hashable(py) else None
+        if ext0 is not None:
+            return ext0(self, args, kwargs)
         if isinstance(py, types.FunctionType) or hasattr(py, '__wrapped__'):
             return self.call_function(py, args, kwargs)
         if isinstance(py, types.MethodType):
